@@ -7,7 +7,11 @@ EFF = {"pa": "print('a')", "pae": "print('a', end='')", "pn": "print()", "pas": 
        "pab": "print('a', 'b', sep='\\t')", "w": "sys.stdout.write('b')", "sp": "print('  ')",
        "pnn": "print('\\n')", "in": "v = input('p')", "ina": "v = ask('p')", "st": "sys.settrace(None)",
        "im": "import helper_mod", "cb": "hook()",
-       "wsv": "saved_out.write('c')"}
+       "wsv": "saved_out.write('c')",
+       # the program edits the interpreter's module table itself: drops an entry that was there, rebinds another
+       "dm": "sys.modules.pop('colorsys', None); sys.modules['this_is_not_a_module'] = sys; sys.modules['json'] = 'not json'"}
+import colorsys  # noqa: E402,F401  (in the module table before any behaviour starts)
+import json as _json_for_table  # noqa: E402,F401
 HELPER_MOD = "def helper_value():\n    return 41\nLOADED = helper_value() + 1\n"
 EXTRA_FILES = {"helper_mod.py": HELPER_MOD, "bad_mod.py": "y = 2\nraise ValueError('in helper file')\n",
                "exit_mod.py": "import sys\nsys.exit(2)\n", "fn_mod.py": "def boom():\n    raise KeyError('k')\n",
